@@ -156,11 +156,25 @@ func oracleRestart(lr *LifeRun, ix *lifeIndex, r *fw.Result) {
 
 // ------------------------------------------------------------------ C08
 
+// pspecNames lists the runtime names of a configured process.
+func pspecNames(p *PSpec) []string {
+	if p.Replicas <= 1 {
+		return []string{p.Name}
+	}
+	var out []string
+	for k := 0; k < p.Replicas; k++ {
+		out = append(out, refReplicaName(p.Name, p.Replicas, k))
+	}
+	return out
+}
+
 func oracleManual(lr *LifeRun, ix *lifeIndex, r *fw.Result) {
 	spec := lr.Spec
 	known := map[string]bool{}
 	for i := range spec.Procs {
-		known[spec.Procs[i].Name] = true
+		for _, n := range pspecNames(&spec.Procs[i]) {
+			known[n] = true
+		}
 	}
 	type call struct {
 		op, proc string
@@ -173,13 +187,15 @@ func oracleManual(lr *LifeRun, ix *lifeIndex, r *fw.Result) {
 		if !autoRun(spec, spec.Procs[i].Name) {
 			continue
 		}
-		pl := ix.procs[spec.Procs[i].Name]
-		if pl == nil || len(pl.Instances) == 0 {
-			startupDone = len(ix.ev) + 1
-			break
-		}
-		if pl.Instances[0] > startupDone {
-			startupDone = pl.Instances[0]
+		for _, n := range pspecNames(&spec.Procs[i]) {
+			pl := ix.procs[n]
+			if pl == nil || len(pl.Instances) == 0 {
+				startupDone = len(ix.ev) + 1
+				break
+			}
+			if pl.Instances[0] > startupDone {
+				startupDone = pl.Instances[0]
+			}
 		}
 	}
 	var calls []call
@@ -454,6 +470,15 @@ func oracleState(lr *LifeRun, ix *lifeIndex, r *fw.Result) {
 						}
 						if !pending && lastInst < ix.runRet {
 							r.Add("C09", "transient-at-end:"+fs.Status, "%s remains in transient status %s after Run() returned with no command alive", name, fs.Status)
+						}
+					}
+				}
+				// the exit code that stays reported is the one of the last command
+				if isTerminal(fs.Status) && fs.Status != types.ProcessStateSkipped && len(pl.Instances) == 1 && (ps == nil || !ps.Daemon) && len(pl.Launches) > 0 {
+					if last := pl.Launches[len(pl.Launches)-1]; !last.Failed && last.ExitSeq >= 0 {
+						r.Count("final_exit_codes_checked", 1)
+						if fs.ExitCode != last.ExitCode {
+							r.Add("C09", "final-exit-code-mismatch", "%s is reported with exit code %d after Run() returned, its last command (attempt %d) exited with %d", name, fs.ExitCode, last.Att, last.ExitCode)
 						}
 					}
 				}
